@@ -258,7 +258,9 @@ def run_numerical(ctx):
     method they must approximate the analytic derivative to their documented order (a sign or operand slip is O(1) off)."""
     from odl.solvers.functional.derivatives import NumericalDerivative, NumericalGradient
     rng = ctx.rng('numerical')
-    for sname, sp in (('r4', odl.rn(4)), ('d5', odl.uniform_discr(0, 1, 5)), ('r4w', odl.rn(4, weighting=1.7))):
+    for sname, sp in (('r4', odl.rn(4)), ('d5', odl.uniform_discr(0, 1, 5)), ('r4w', odl.rn(4, weighting=1.7)),
+                      ('r4aw', odl.rn(4, weighting=np.array([0.5, 1.0, 2.0, 4.0]))), ('d2x3', odl.uniform_discr([0, 0], [1, 3], (2, 3))),
+                      ('r(2,3)', odl.rn((2, 3)))):
         ops = [('Power3', odl.PowerOperator(sp, 3)), ('sin', odl.ufunc_ops.sin(sp)), ('Power2+v', odl.PowerOperator(sp, 2) + util.rand_element(sp, rng))]
         for (oname, op), method in itertools.product(ops, ('forward', 'backward', 'central')):
             for step in (None, 1e-4):
